@@ -6,7 +6,7 @@
 (* ($c, $i, $j, ...), so no value has to be printed as program text.       *)
 (* Every case is one initial state; Emit writes the replay vector.         *)
 (***************************************************************************)
-EXTENDS JaqLib, Json
+EXTENDS JaqOrder, Json
 
 CONSTANTS Suite, Size
 
@@ -71,8 +71,57 @@ V1(c)       == << << "c", c >> >>
 V2(c, i)    == << << "c", c >>, << "i", i >> >>
 V3(c, i, j) == << << "c", c >>, << "i", i >>, << "j", j >> >>
 
+-----------------------------------------------------------------------------
+(* C08: one total order, equal values are interchangeable *)
+VA == TVar("a")
+VB == TVar("b")
+X2 == TE(TStr(Ascii("x")), TNum(2))
+Obj2(k, v) == TObj(<< TE(k, v), X2 >>)
+Ops8 == {
+  TArr(TComma(TBin("<", VA, VB), TComma(TBin("<=", VA, VB), TComma(TBin("==", VA, VB), TComma(TBin("!=", VA, VB), TComma(TBin(">=", VA, VB), TBin(">", VA, VB))))))),
+  TPipe(TArr(TComma(VA, VB)), TC0("sort")),
+  TPipe(TArr(TComma(VA, TComma(VB, VA))), TC0("unique")),
+  TPipe(TArr(TComma(VA, VB)), TC1("group_by", TId)),
+  TPipe(TArr(TComma(VA, VB)), TArr(TComma(TC0("min"), TC0("max")))),
+  TPipe(Obj2(VA, TNum(1)), TArr(TComma(TC1("has", VB), TAt(VB)))),
+  TBin("==", Obj2(VA, TNum(1)), TObj(<< X2, TE(VB, TNum(1)) >>)),
+  TBin("+", Obj2(VA, TNum(1)), TObj(<< TE(VB, TNum(3)) >>)),
+  TBin("*", Obj2(VA, TObj(<< TE(TStr(Ascii("p")), TNum(1)) >>)), TObj(<< TE(VB, TObj(<< TE(TStr(Ascii("q")), TNum(2)) >>)) >>)),
+  TPipe(Obj2(VA, TNum(1)), TBin("=", TAt(VB), TNum(5))),
+  TPipe(Obj2(VA, TNum(1)), TC1("del", TAt(VB))),
+  TPipe(TArr(TComma(VA, TStr(Ascii("x")))), TArr(TComma(TC1("index", TArr(VB)), TC1("indices", TArr(VB))))),
+  TBin("-", TArr(TComma(VA, TNum(7))), TArr(VB)),
+  TPipe(TArr(TComma(TArr(VA), TNum(7))), TArr(TComma(TC1("contains", TArr(TArr(VB))), TPipe(TArr(TArr(VB)), TC1("inside", TArr(TComma(TArr(VA), TNum(7)))))))),
+  TPipe(TPipe(TArr(TComma(VA, VB)), TC0("sort")), TC1("bsearch", VB))
+}
+
+VC == TVar("c")
+NumAtoms == (IF Size <= 2 THEN {IntV(0), IntV(1), FltV(0, 1), NZero, FltV(1, 1), BigV(FALSE, << 1 >>), D("1.0"), D("1e0"), FltV(1, 2), Inf}
+             ELSE {a \in Atoms8 : IsNum(a)}) \cup {Null, StrV(<< 97 >>), BytesV(<< 97 >>), ArrV(<< FltV(1, 1) >>), ArrV(<< IntV(1) >>),
+             ObjV(<< << StrV(<< 97 >>), IntV(0) >>, << StrV(<< 98 >>), IntV(1) >> >>),
+             ObjV(<< << StrV(<< 98 >>), IntV(1) >>, << StrV(<< 97 >>), IntV(0) >> >>)}
+Ops8T == {
+  TPipe(TArr(TComma(VA, TComma(VB, VC))), TC0("sort")),
+  TPipe(TArr(TComma(VA, TComma(VB, VC))), TC0("unique")),
+  TPipe(TArr(TComma(VA, TComma(VB, VC))), TC1("group_by", TId)),
+  TPipe(TArr(TComma(VA, TComma(VB, VC))), TC1("sort_by", TArr(TId)))
+}
+\* long arrays of equal-but-distinguishable values (stability beyond small-array special cases)
+RECURSIVE Rep(_, _)
+Rep(sq, k) == IF k = 0 THEN <<>> ELSE sq \o Rep(sq, k - 1)
+LongArrays == {ArrV(Rep(sq, 8)) : sq \in {
+   << IntV(2), FltV(1, 1), IntV(1), FltV(2, 1), D("1e0") >>,
+   << FltV(1, 1), IntV(0), IntV(1), NZero, D("1.0"), BigV(FALSE, << 1 >>) >>,
+   << ObjV(<< << StrV(<< 97 >>), IntV(0) >>, << StrV(<< 98 >>), IntV(1) >> >>), IntV(3),
+      ObjV(<< << StrV(<< 98 >>), IntV(1) >>, << StrV(<< 97 >>), IntV(0) >> >>), IntV(2) >> }}
+OpsLong == {TPipe(VA, TC0("sort")), TPipe(VA, TC0("unique")), TPipe(VA, TC1("group_by", TId)), TPipe(VA, TC1("sort_by", TBin("<", TId, TNum(2)))),
+            TPipe(VA, TC1("unique_by", TBin("<", TId, TNum(2)))), TPipe(VA, TArr(TComma(TC0("min"), TC0("max"))))}
+
 Cases ==
-  CASE Suite = "pos-read" ->
+  CASE Suite = "order-triples" -> {<< p, << << "a", a >>, << "b", b >>, << "c", c >> >> >> : p \in Ops8T, a \in NumAtoms, b \in NumAtoms, c \in NumAtoms}
+    [] Suite = "order-long" -> {<< p, << << "a", a >> >> >> : p \in OpsLong, a \in LongArrays}
+    [] Suite = "order-pairs" -> {<< p, << << "a", a >>, << "b", b >> >> >> : p \in Ops8, a \in Atoms8, b \in Atoms8}
+    [] Suite = "pos-read" ->
          {<< p, V1(c) >> : p \in ReadOps1, c \in Containers \cup Objects}
          \cup {<< p, V2(c, i) >> : p \in ReadOps2, c \in Containers, i \in Positions \cup BadPositions}
          \cup {<< p, V2(c, i) >> : p \in ReadOps2, c \in Objects, i \in Keys10}
